@@ -59,6 +59,11 @@ fn main() {
                         let _ = std::fs::remove_dir_all(&dir);
                         std::process::exit(2);
                     }
+                    nfv::props::c01::ExecResult::Infra(m) => {
+                        println!("replay [{} profile]: could not be judged ({}) - inconclusive", profile, m);
+                        let _ = std::fs::remove_dir_all(&dir);
+                        std::process::exit(2);
+                    }
                     nfv::props::c01::ExecResult::Panic(m) | nfv::props::c01::ExecResult::Crash(m) => {
                         println!("replay [{} profile]: {}", profile, m);
                         bad = Some(m);
